@@ -185,3 +185,14 @@ Proof. vm_compute. repeat split; reflexivity. Qed.
 Theorem C15_error_slot_capacity : Gen.Consts.reassemblerErrorsCap = 1%Z.
 Proof. reflexivity. Qed.
 Print Assumptions C15_error_slot_capacity.
+
+(* ---------- the correlator oracle of these statements is the correlator of the source ----------
+   The statements above take the correlator as an oracle (audit / rlogin); the end-to-end correspondence
+   instantiates it with Model/Tracker.v, and that model IS the interpretation of programs regenerated
+   from sessiontracker.go on every run: in particular which branches return a write error (so that the
+   processor stops) is read from the source. *)
+From AM Require Model.Tracker Model.TrackerIR Gen.TrackerProg Proofs.TrackerIRTie.
+Theorem C15_tracker_from_source : forall st o,
+  Proofs.TrackerIRTie.run_generated st o = Some (Model.Tracker.tstep st o).
+Proof. exact Proofs.TrackerIRTie.tracker_from_source. Qed.
+Print Assumptions C15_tracker_from_source.
